@@ -85,6 +85,7 @@ type Exec struct {
 	paramArgs map[*ssa.Parameter]ssa.Value
 	resolving map[string]bool
 	loopBase int // inlined helper: its loops continue the caller's loop numbering from here
+	srcNames map[string]bool // names of the function's own variables (hasSourceName)
 	recvOK Val // comma-ok result of the receive whose hooks are running
 	retGuards []string // path conditions of the return sites (vacuity guard: some return must be reachable)
 	inlineLoopBase map[*ssa.Function]int
